@@ -238,7 +238,10 @@ theorem inv_step {s s' : State} (a : Action) (hi : Inv s) (h : step s a = some s
           by_cases hd : d = c
           · subst hd
             simp only [if_true, hg.2.2]
-            refine ⟨by simp [counted], by simp [holdsLock], by simp [inMap, counted], by simp [preReg], trivial, id, ?_⟩
+            refine ⟨by simp [counted], by simp [holdsLock], by simp [inMap, counted], by simp [preReg], trivial,
+              (by intro hsd; rcases hsd with h | h
+                  · exact Or.inl h
+                  · rw [hg.2.2] at h; cases h), ?_⟩
             obtain ⟨h1, h2, h3, h4, h5, h6, h7⟩ := hl
             have := hg.2.2
             constructor <;> simp_all [preReg, noService, dropPath, pastDec]
@@ -312,15 +315,15 @@ theorem inv_step {s s' : State} (a : Action) (hi : Inv s) (h : step s a = some s
     split at h
     · rename_i hg; cases h
       have hl := hi.loc c
-      have hi' : Inv (setConn s c { s.conns c with sockClosed := true }) :=
-        inv_setConn hi hg.2.2 rfl rfl (fun _ => rfl)
-          (by obtain ⟨h1, h2, h3, h4, h5, h6, h7⟩ := hl; constructor <;> simp_all)
+      have hi' : Inv (setConn s c (sweepClose (s.conns c))) :=
+        inv_setConn hi hg.2.2 rfl rfl (fun hsc => by simp [sweepClose, hsc])
+          (by obtain ⟨h1, h2, h3, h4, h5, h6, h7⟩ := hl; constructor <;> simp_all [sweepClose])
       obtain ⟨h1, h2, h3, h4, h5, h6, h7, h8, h9, h10, h11, h12, h13, h14, h15, h16⟩ := hi'
       refine ⟨h1, h2, h3, h4, h5, h6, h7, h8, h9, h10, h11, h12, h13, h14, h15, ?_⟩
       intro j hs d hd
       show d ∈ s.sweepLeft.erase c ∨ _
       by_cases hdc : d = c
-      · subst hdc; right; simp [setConn]
+      · subst hdc; right; simpa [setConn] using sockDone_sweepClose (s.conns d)
       · rcases h16 j hs d hd with h | h
         · exact Or.inl ((List.mem_erase_of_ne hdc).mpr h)
         · exact Or.inr h
@@ -332,13 +335,14 @@ theorem inv_step {s s' : State} (a : Action) (hi : Inv s) (h : step s a = some s
       have hreg := hi.reg
       have hlocs := hi.loc
       have hsw := hi.sweep k hg.1
-      have hall : ∀ c, preReg (s.conns c).pc = false → (s.conns c).sockClosed = true := by
+      have hall : ∀ c, preReg (s.conns c).pc = false → sockDone (s.conns c) := by
         intro c hc
         by_cases hr : c ∈ s.registered
         · rcases hsw c hr with h | h
           · rw [hg.2] at h; cases h
           · exact h
-        · apply (hlocs c).closed
+        · apply Or.inl
+          apply (hlocs c).closed
           have hm : inMap (s.conns c).pc = false := by
             cases hh : inMap (s.conns c).pc with
             | false => rfl
